@@ -104,6 +104,11 @@ func TestMakeWitnesses(t *testing.T) {
 	write("C09", "", "fixed-F4-epoch-start-date-in-basket", baseGen(), with(
 		batch(d(1970, 1, 1), d(1971, 1, 1), "10"), basketStep(nil),
 		step{"put", &baskettypes.MsgPut{Owner: a1, BasketDenom: "eco.uC.NCT", Credits: []*baskettypes.BasketCredit{{BatchDenom: "C01-001-19700101-19710101-001", Amount: "1"}}}}))
+	write("C05", "", "fixed-F13-take-amount-leading-zero", baseGen(), with(
+		batch(d(2020, 1, 1), d(2021, 1, 1), "10"), basketStep(nil),
+		step{"put", &baskettypes.MsgPut{Owner: a1, BasketDenom: "eco.uC.NCT", Credits: []*baskettypes.BasketCredit{{BatchDenom: "C01-001-20200101-20210101-001", Amount: "5"}}}},
+		step{"take", &baskettypes.MsgTake{Owner: a1, BasketDenom: "eco.uC.NCT", Amount: "0100"}},
+		step{"take", &baskettypes.MsgTake{Owner: a1, BasketDenom: "eco.uC.NCT", Amount: "0777777"}}))
 	write("C18", "", "fixed-F8-zero-fee-rate", baseGen(), with(
 		batch(d(2020, 1, 1), d(2021, 1, 1), "10"),
 		step{"setFeeParams", &markettypes.MsgGovSetFeeParams{Authority: gov, Fees: &markettypes.FeeParams{BuyerPercentageFee: "0", SellerPercentageFee: "0.0"}}}))
